@@ -43,6 +43,7 @@ CONSTANTS Kind,        \* "fixed" | "variable": record type of the source bucket
           RowCodes,    \* stored rows, one integer each: 1000*position + 100*a + 10*b + c (levels 1..9)
           SecOffs,     \* offsets inside an interval that are whole seconds (a seconds literal can name them)
           EpochLits,   \* positions used as Epoch bounds (on / between / outside stored rows)
+          BtwStrLits,  \* positions used as bounds of BETWEEN with datetime strings (all pairs lo < hi)
           BtwLits,     \* positions used for degenerate and non-string BETWEEN bounds
           ALits, BLits, CLits, \* bounds on the doubled level scale for the three value columns
           Unfiltered,  \* value columns whose element type the post-filter has no case for
@@ -91,7 +92,7 @@ CmpOps == {"<", "<=", ">", ">=", "="}
 EpochKinds(p) == IF (p % G) \in SecOffs THEN {"str", "sec", "ns"} ELSE {"str", "ns"}
 EpochAtoms ==
   UNION {{[col |-> "Epoch", op |-> o, v |-> 2 * p, w |-> 0, k |-> kd] : o \in CmpOps, kd \in EpochKinds(p)} : p \in EpochLits}
-  \cup {[col |-> "Epoch", op |-> "btw", v |-> 2 * pr[1], w |-> 2 * pr[2], k |-> "str"] : pr \in {x \in EpochLits \X EpochLits : x[1] < x[2]}}
+  \cup {[col |-> "Epoch", op |-> "btw", v |-> 2 * pr[1], w |-> 2 * pr[2], k |-> "str"] : pr \in {x \in BtwStrLits \X BtwStrLits : x[1] < x[2]}}
   \cup {[col |-> "Epoch", op |-> "btw", v |-> 2 * pr[1], w |-> 2 * pr[2], k |-> "str"] : pr \in {x \in BtwLits \X BtwLits : x[1] >= x[2]}}
   \cup {[col |-> "Epoch", op |-> "btw", v |-> 2 * pr[1], w |-> 2 * pr[2], k |-> kd] :
             pr \in {x \in BtwLits \X BtwLits : x[1] < x[2]}, kd \in {"ns", "sec"}}
